@@ -171,7 +171,18 @@ fn run_case_inner(spec: &CheckSpec, case: &Case, root: &Path, prepare: bool) -> 
         crate::audit::after_op(e).map_err(|w| fail(0, format!("after open: {w}")))?;
     }
     for (i, op) in case.ops.iter().enumerate() {
+        // C11: when nothing is in memtables a reopen hits only ONE of the trees, the others keep the
+        // shared cache / descriptor table warm (their logical content stays identical)
+        let solo = spec.twin == Twin::MultiCfg
+            && matches!(op, crate::spec::Op::Reopen { .. })
+            && !execs[0].model.has_active()
+            && !execs[0].model.has_sealed();
+        let n_exec = execs.len();
         for (ti, e) in execs.iter_mut().enumerate() {
+            if solo && ti != i % n_exec {
+                e.stats.bump("reopen.solo_skipped");
+                continue;
+            }
             let r = e.apply(op);
             if trace {
                 use lsm_tree::AbstractTree;
